@@ -28,6 +28,7 @@ func checkC08(w *World, r *Report) {
 	checkC08TsrParams(w, r)
 	checkC08ParentPairing(w, r)
 	checkC08OneSlashApart(w, r)
+	checkC08CaseAnalysis(w, r)
 }
 
 func checkC08Guards(w *World, r *Report, d *dispatchInfo) {
@@ -708,4 +709,152 @@ func checkC08OneSlashApart(w *World, r *Report) {
 	if n < 3 {
 		r.Unrecognised("C08.7: only %d direct trailing-slash candidates found in lookupByPath", n)
 	}
+}
+
+// checkC08CaseAnalysis: exhaustiveness of the trailing-slash case analysis of the path matcher. A candidate differs from
+// the request by one '/'; where the walk can stand when that is so is a finite case table:
+//
+//	stop on a leaf, path consumed, rest of the key is "/"            -> add a slash, n = current        (C08.7 checks the guard)
+//	stop on a leaf, key consumed, rest of the path is "/"            -> drop the slash, n = current     (C08.7)
+//	stop on a leaf inside its key, matched part is "/"               -> drop the slash, n = parent      (C08.7)
+//	stop on a node without route, matched part is "/"                -> drop the slash, n = parent      (C08.7)
+//	stop on a node without route, key and path consumed              -> add a slash, n = its leaf child "/"
+//	leaving a leaf for a wildcard child with only "/" left           -> drop the slash, n = current (a wildcard never takes an empty segment)
+//
+// The last two have no sibling to be compared with; this rule demands that they exist.
+func checkC08CaseAnalysis(w *World, r *Report) {
+	ru := r.Rule("C08.8", "the trailing-slash case analysis is exhaustive: besides the candidates of C08.7 the path matcher records (a) at a stop on a node without route whose key and the path are both consumed, the leaf child whose key is exactly \"/\" (add a slash), and (b) before it leaves a leaf for a param or catch-all child because no static child matches, that leaf when exactly \"/\" is left of the path (drop the slash)", 2)
+	af := w.astFuncOf(modulePath, "lookupByPath")
+	defs := map[string]string{}
+	ndefs := map[string]int{}
+	ast.Inspect(af.decl.Body, func(n ast.Node) bool {
+		if as, ok := n.(*ast.AssignStmt); ok && len(as.Lhs) == 1 && len(as.Rhs) == 1 {
+			if id, ok := as.Lhs[0].(*ast.Ident); ok {
+				defs[id.Name] = exprStr(as.Rhs[0])
+				ndefs[id.Name]++
+			}
+		}
+		return true
+	})
+	holds := func(facts []astFact, pred func(e string, val bool) bool) bool {
+		for _, f := range facts {
+			if pred(exprStr(f.e), f.val) {
+				return true
+			}
+		}
+		return false
+	}
+	foundA, foundB := "", ""
+	whyA, whyB := "no candidate with n = a child of current is recorded where current has no route", "no candidate n = current is recorded in the branch that descends into a wildcard child after the static search failed"
+	for _, b := range af.g.Blocks {
+		if !b.Live {
+			continue
+		}
+		isCand, target := false, ""
+		var at ast.Node
+		for _, nd := range b.Nodes {
+			if as, ok := nd.(*ast.AssignStmt); ok && len(as.Lhs) == 1 && len(as.Rhs) == 1 {
+				if exprStr(as.Lhs[0]) == "tsr" && exprStr(as.Rhs[0]) == "true" {
+					isCand, at = true, as
+				}
+				if exprStr(as.Lhs[0]) == "n" {
+					target = exprStr(as.Rhs[0])
+				}
+			}
+		}
+		if !isCand {
+			continue
+		}
+		facts := af.factsAt(b)
+		noRoute := holds(facts, func(e string, v bool) bool { return (e == "current.isLeaf()" && !v) || (e == "!current.isLeaf()" && v) })
+		onLeaf := holds(facts, func(e string, v bool) bool { return (e == "current.isLeaf()" && v) || (e == "!current.isLeaf()" && !v) })
+		searchMiss := holds(facts, func(e string, v bool) bool {
+			return (e == "idx<0" && v) || (e == "idx>=0" && !v) || (e == "idx==-1" && v)
+		})
+		// (a)
+		if noRoute && strings.HasPrefix(target, "current.children[") {
+			child := target
+			keyIsSlash := holds(facts, func(e string, v bool) bool {
+				return v && (e == "len("+child+".key)==1" || e == child+".key==\"/\"")
+			})
+			// the index comes from a search of the child keys for '/'
+			idxVar := strings.TrimSuffix(strings.TrimPrefix(child, "current.children["), "]")
+			fromSlash := strings.Contains(defs[idxVar], "childKeys") && (strings.Contains(defs[idxVar], "slashDelim") || strings.Contains(defs[idxVar], "'/'"))
+			childLeaf := holds(facts, func(e string, v bool) bool { return e == child+".isLeaf()" && v })
+			bothConsumed := holdsEq(facts, "charsMatched", "len(path)") && holdsEq(facts, "charsMatchedInNodeFound", "len(current.key)")
+			if keyIsSlash && fromSlash && childLeaf && bothConsumed {
+				foundA = w.Pos(at.Pos())
+			} else {
+				whyA = fmt.Sprintf("candidate at %s: keyIsSlash=%v indexFromSlashSearch=%v childIsLeaf=%v keyAndPathConsumed=%v", w.Pos(at.Pos()), keyIsSlash, fromSlash, childLeaf, bothConsumed)
+			}
+		}
+		// (b)
+		if searchMiss && target == "current" {
+			rest := exactSlashPieces(facts, defs, ndefs)
+			if onLeaf && rest["path[charsMatched:]"] {
+				foundB = w.Pos(at.Pos())
+			} else {
+				whyB = fmt.Sprintf("candidate at %s: currentIsLeaf=%v restOfPathIsSlash=%v", w.Pos(at.Pos()), onLeaf, rest["path[charsMatched:]"])
+			}
+		}
+	}
+	pos := w.Pos(af.decl.Pos())
+	ru.Check("add a slash at a node without route", orDefault(foundA, pos), "n = current.children[i] with i found by searching the child keys for '/', key exactly \"/\", child is a leaf, key and path consumed", foundA != "", orDefault(map[bool]string{true: "recorded"}[foundA != ""], whyA))
+	ru.Check("drop the slash before leaving a leaf for a wildcard child", orDefault(foundB, pos), "n = current under: static search failed, current is a leaf, the rest of the path is exactly \"/\"", foundB != "", orDefault(map[bool]string{true: "recorded"}[foundB != ""], whyB))
+}
+
+// exactSlashPieces: the pieces (source text) that the facts prove to be exactly "/" (shared with C08.7).
+func exactSlashPieces(facts []astFact, defs map[string]string, ndefs map[string]int) map[string]bool {
+	resolve := func(e string) string {
+		if d, ok := defs[e]; ok && ndefs[e] == 1 {
+			return d
+		}
+		return e
+	}
+	isSlash := func(s string) bool { return s == "slashDelim" || s == "'/'" }
+	lenOne, firstSlash := map[string]bool{}, map[string]bool{}
+	out := map[string]bool{}
+	for _, f0 := range facts {
+		for _, f := range splitFact(f0) {
+			x, y, ok := isCmp(f.e, token.EQL)
+			pos := f.val
+			if !ok {
+				x, y, ok = isCmp(f.e, token.NEQ)
+				pos = !f.val
+			}
+			if !ok || !pos {
+				continue
+			}
+			for _, xy := range [][2]string{{x, y}, {y, x}} {
+				a, b := xy[0], xy[1]
+				if strings.HasPrefix(a, "len(") && b == "1" {
+					lenOne[resolve(strings.TrimSuffix(strings.TrimPrefix(a, "len("), ")"))] = true
+				}
+				if strings.HasSuffix(a, "[0]") && isSlash(b) {
+					firstSlash[resolve(strings.TrimSuffix(a, "[0]"))] = true
+				} else if i := strings.LastIndex(a, "["); i > 0 && strings.HasSuffix(a, "]") && isSlash(b) {
+					firstSlash[a[:i]+"["+a[i+1:len(a)-1]+":]"] = true
+				}
+				if b == "\"/\"" {
+					out[resolve(a)] = true
+				}
+				if b == "1" && !strings.HasPrefix(a, "len(") {
+					lenOne["current.key[:"+a+"]"] = true
+				}
+				// k == len(X)-1 is len(X[k:]) == 1
+				if strings.HasPrefix(b, "len(") && strings.HasSuffix(b, ")-1") {
+					lenOne[strings.TrimSuffix(strings.TrimPrefix(b, "len("), ")-1")+"["+a+":]"] = true
+				}
+			}
+		}
+	}
+	for p := range lenOne {
+		if firstSlash[p] {
+			out[p] = true
+		}
+		if strings.HasPrefix(p, "current.key[:") && firstSlash["current.key"] {
+			out[p] = true
+		}
+	}
+	return out
 }
